@@ -43,6 +43,15 @@ def run(ctx):
         kids = [spec.F(f"K{j}x{g.rng.randrange(10**6)}") for j in range(6)]
         cases.append(dict(root=spec.F("Root", [spec.R(1, 1, kids[:3]), spec.R(0, 1, kids[3:5]), spec.R(2, 3, [kids[5], spec.F("Za"), spec.F("Zb")])]),
                           ctcs=[("c", spec.OP("EXCLUDES", spec.T(kids[0]["name"]), spec.T("Za")))]))
+    # order-permuted twins: equal-comparing models whose text differs (children in another order)
+    import copy
+    for m in list(cases[:6]) + list(cases[-4:]):
+        t = copy.deepcopy(m)
+        for f in spec.spec_features(t["root"]):
+            for r in f["rels"]:
+                r["children"].reverse()
+            f["rels"].reverse()
+        cases.append(t)
     sc = fmt.Scratch()
     try:
         cpath = os.path.join(sc.dir, "cases.json")
@@ -57,6 +66,7 @@ def run(ctx):
             env.update(loc)
             env["PYTHONHASHSEED"] = seed
             env["PYTHONPATH"] = "/repo"
+            env["H_ORDER"] = "reversed" if k % 2 else "forward"
             opath = os.path.join(sc.dir, f"out{k}.json")
             p = subprocess.run(["/venv/bin/python", os.path.join(HERE, "h_worker.py"), cpath, opath], env=env,
                                stdout=subprocess.PIPE, stderr=subprocess.STDOUT, text=True, timeout=1800)
